@@ -24,7 +24,28 @@ def case_strategy():
     from hypothesis import strategies as st
 
     @st.composite
+    def _valuedep_case(draw):
+        """the current method is value-dependent and delegates OTHER values for which its own condition does not
+        hold: 'when the current method is not applicable to args, call_next behaves like a fresh call'"""
+        p1, p2 = draw(st.sampled_from([("pos", "neg"), ("neg", "pos"), ("even", "big"), ("pos", "even")]))
+        site = {"fn": draw(st.sampled_from(["call_next", "call_next", "next"])), "npos": 1, "kws": []}
+        methods = [{"id": 0, "prio": 2, "kw": [], "sites": [site], "pos": [{"name": "a0", "ann": ["dep", ["cls", "int"], p2]}]},
+                   {"id": 1, "prio": 1, "kw": [], "sites": [site], "pos": [{"name": "a0", "ann": ["dep", ["cls", "int"], p1]}]},
+                   {"id": 2, "prio": 0, "kw": [], "sites": [site], "pos": [{"name": "a0", "ann": ["cls", "int"]}]},
+                   {"id": 3, "prio": -1, "kw": [], "sites": [], "pos": [{"name": "a0", "ann": ["obj"]}]}]
+        vals = [["int", v] for v in (-3, -2, -1, 0, 1, 2, 3, 150)]
+        calls = []
+        for _ in range(draw(st.integers(2, 5))):
+            script = [["site", 0, [draw(st.sampled_from(vals))], {}] if draw(st.booleans()) else ["site", 0, "same"]
+                      for _ in range(draw(st.integers(1, 4)))]
+            calls.append({"args": [draw(st.sampled_from(vals))], "kw": {}, "script": script})
+        return {"hier": {"classes": [{"bases": []}]}, "methods": methods, "host": draw(st.sampled_from(["func", "attr", "mc"])),
+                "calls": calls, "factories": []}
+
+    @st.composite
     def _case(draw):
+        if draw(st.integers(0, 9)) == 0:
+            return draw(_valuedep_case())
         h = draw(H.hierarchies(2, 7))
         knames = H.class_names(h)
         env = H.build(h)
@@ -85,6 +106,19 @@ def case_strategy():
     return _case()
 
 
+def type_level_applicable(m, args, kws, env):
+    if not (M.req_pos(m) <= len(args) <= M.max_pos(m)):
+        return False
+    for p, v in zip(m["pos"], args):
+        b = S.dep_bound(M.ann_of(p), env) if S.is_dependent_spec(M.ann_of(p)) else None
+        if S.is_dependent_spec(M.ann_of(p)):
+            if b is None or not isinstance(v, b):
+                return False
+        elif S.accepts(M.ann_of(p), v, env) is not True:
+            return False
+    return True
+
+
 def expected_next(methods, m, fn, args, kws, env):
     """-> ("method", id) | ("nomethod",) | ("ambiguous",) | ("unspec", why)"""
     if fn == "recurse":
@@ -93,7 +127,10 @@ def expected_next(methods, m, fn, args, kws, env):
     if app is None:
         return ("unspec", "applicability")
     if app is False:
-        return M.resolve(methods, args, kws, env)
+        r = M.resolve(methods, args, kws, env)
+        # (is the caller excluded only by its VALUE condition?  its class-level annotation accepts the arguments)
+        byvalue = any(S.is_dependent_spec(M.ann_of(p)) for p in m["pos"] + m["kw"]) and type_level_applicable(m, args, kws, env)
+        return r + (("fresh-by-value",),) if byvalue and r[0] != "unspec" else r
     # "the method that would have been chosen had the current method and everything ranked above it not been
     # registered": remove m and every applicable method that beats m; well-defined whenever m beats everything
     # that is left (true along a chain, and also for a method lying below a tied rank)
@@ -102,7 +139,7 @@ def expected_next(methods, m, fn, args, kws, env):
         return ("unspec", "applicability")
     seq = {x["id"]: i for i, x in enumerate(methods)}
     n, names = len(args), set(kws)
-    rest = []
+    rest, tied = [], []
     for x in cands:
         if x is m:
             continue
@@ -112,9 +149,12 @@ def expected_next(methods, m, fn, args, kws, env):
         if b:
             continue  # ranked above the current method
         if M.beats(m, x, n, names, env, seq) is not True:
-            return ("unspec", "a remaining method is not ranked below the current one (tied rank)")
+            # x is neither above nor below the current method for these arguments (a peer of a tied rank): by the
+            # statement it has not been removed, so it takes part in the choice
+            tied.append(x["id"])
         rest.append(x)
-    return M.resolve_among(rest, n, names, env, seq)
+    r = M.resolve_among(rest, n, names, env, seq)
+    return r + (("tied", tuple(tied)),) if tied and r[0] != "unspec" else r
 
 
 def run_case(spec):
@@ -157,6 +197,14 @@ def run_case(spec):
                     if out.kind in ("ok", "user"):
                         res.fail(f"delegation {j} from m{mid} via {site['fn']} entered no body but the call ended {out.kind}", None)
                         break
+                tied = ()
+                byvalue = False
+                if exp and exp[-1] == ("fresh-by-value",):
+                    byvalue, exp = True, exp[:-1]
+                    res.label("caller-excluded-by-its-value-condition")
+                if exp and isinstance(exp[-1], tuple) and exp[-1][:1] == ("tied",):
+                    tied, exp = exp[-1][1], exp[:-1]
+                    res.label("caller-has-tied-peers-for-the-delegated-arguments")
                 res.label("step:" + site["fn"], "exp:" + exp[0])
                 if exp[0] == "unspec":
                     res.skipped.append("unspec:" + exp[1])
@@ -164,8 +212,11 @@ def run_case(spec):
                 if got != exp:
                     res.fail(
                         f"call args={c['args']} kw={c['kw']} script={c.get('script')}: delegation {j} from m{mid} via "
-                        f"{site['fn']}(same={same}) went to {got}, expected {exp}; trace={trace} ({out.detail[:120]})",
-                        None,
+                        f"{site['fn']}(same={same}) went to {got}, expected {exp}; trace={trace} ({out.detail[:120]})"
+                        + (f" [methods {list(tied)} are neither above nor below m{mid} for these arguments and were skipped]"
+                           if tied else ""),
+                        "C07:tied-peer-of-caller-skipped" if tied
+                        else "C07:value-inapplicable-caller-not-a-fresh-call" if byvalue else None,
                     )
                     break
             if same_chain and len(set(trace)) != len(trace):
